@@ -179,6 +179,20 @@ func SlotDrop(cur realm, i int) int {
 	return id
 }
 
+// SlotAdopt: the two other slots both take over the child of slot i, and slot i (the child's
+// owner so far) is dropped in the same call.
+func SlotAdopt(cur realm, i int) int {
+	i %= len(Slots)
+	a, b, c := Slots[i], Slots[(i+1)%len(Slots)], Slots[(i+2)%len(Slots)]
+	if a == nil || b == nil || c == nil || a.Next == nil {
+		return -1
+	}
+	b.Next = a.Next
+	c.Next = a.Next
+	Slots[i] = nil
+	return b.Next.ID
+}
+
 // SlotReset puts fresh nodes into the slots selected by mask and clears the others.
 func SlotReset(cur realm, mask int) int {
 	for i := range Slots {
